@@ -40,11 +40,13 @@ I_FILTERS = [
     "PropagateAnchorsIFilter", "SkipExportGlyphsIFilter",
 ]
 # filters whose __call__ does not consult include/exclude at all
-NO_INCLUDE = ("DottedCircleFilter", "SkipExportGlyphsFilter", "SkipExportGlyphsIFilter",
-              "ExplodeColorLayerGlyphsFilter")
+NO_INCLUDE = ("DottedCircleFilter",)
+# filters whose final pruning loop ignores include/exclude (open finding
+# KF-C14-skipexport-prune-scope); their decomposition step does honour it
+PRUNING = ("SkipExportGlyphsFilter", "SkipExportGlyphsIFilter")
 
 
-def gen_filter(rng, cls, names, quad=False):
+def gen_filter(rng, cls, names, quad=False, bases=()):
     d = {"cls": cls}
     if cls == "TransformationsFilter":
         d["kwargs"] = rng.choice([{"OffsetX": 15}, {"OffsetY": -20, "OffsetX": 5}, {"ScaleX": 80, "ScaleY": 80},
@@ -62,6 +64,11 @@ def gen_filter(rng, cls, names, quad=False):
         sub = [n for n in names if n != ".notdef"]
         rng.shuffle(sub)
         d["args"] = [sub[: rng.randint(0, min(3, len(sub)))]]
+        if bases and rng.random() < 0.6:
+            # non-export glyphs that are really used as components (also at depth 2)
+            bl = list(bases)
+            rng.shuffle(bl)
+            d["args"] = [bl[: rng.randint(1, 2)]]
     if "pre" not in d and rng.random() < 0.5:
         d["pre"] = rng.random() < 0.5
     if cls not in NO_INCLUDE and names:
@@ -136,15 +143,33 @@ def gen_scenario(seed, profile=None):
             specs.append(world.gen_family(rng, force=force, forbid=[f for f in ("color",) if f not in force],
                                           max_glyphs=12, n_masters=rng.choice([1, 2, 2, 2, 3]),
                                           p_sparse=0.7))
+    for sp in specs:
+        # masters whose component trees differ: every UFO is valid on its own, the family
+        # is not interpolatable - interpolatable filters are still handed such lists
+        if "masters" in sp and len(sp["masters"]) > 1 and rng.random() < 0.1:
+            g0 = sp["masters"][0]["glyphs"]
+            used = {c[0] for g in g0.values() if g["components"] and not g["contours"] for c in g["components"]}
+            cands = sorted(n for n in used if n in g0 and g0[n]["components"] and not g0[n]["contours"])
+            if cands:
+                n = cands[rng.randrange(len(cands))]
+                k = rng.randrange(1, len(sp["masters"]))
+                gk = sp["masters"][k]["glyphs"].get(n)
+                if gk is not None:
+                    gk["components"] = []
+                    gk["contours"] = [[[40, 0, "line", False], [240, 0, "line", False],
+                                       [240, 260, "line", False], [40, 260, "line", False]]]
+                    sp.setdefault("features_on", []).append("diverging_trees")
     infos = [gen07.world_info(s) for s in specs]
     names = sorted(set().union(*[set(i["glyphs"]) for i in infos]))
     quad = any(("quadratic" in s.get("features_on", [])) or "corpus" in s for s in specs)
+    bases = sorted({c[0] for sp in specs if "masters" in sp
+                    for g in sp["masters"][0]["glyphs"].values() for c in g["components"]} - {".notdef"})
     nf = rng.randint(2, 4)
     filters = []
     for _ in range(nf):
         cls = rng.choice(STATIC_FILTERS + I_FILTERS if any(i["n_fonts"] > 1 or i["has_ds"] for i in infos)
                          else STATIC_FILTERS)
-        filters.append(gen_filter(rng, cls, names, quad))
+        filters.append(gen_filter(rng, cls, names, quad, bases))
     mat = {"mode": rng.choice(["u2mem", "u2mem", "dcmem", "u2lazy"]),
            "order_key": "o%d" % seed if rng.random() < 0.5 else None, "perm_key": None}
     steps = []
@@ -371,8 +396,14 @@ def _do_preproc(sess_filters, w, st, forced):
     return [snap_gs(g) for g in gss]
 
 
-def check_scope_and_report(desc, before, after, returned, prefix=""):
-    """Oracles (c) scope and (d) report for one glyph set.  Returns messages."""
+def _skip_list(desc):
+    a = desc.get("args") or []
+    return set(a[0] if a else (desc.get("kwargs") or {}).get("skipExportGlyphs") or [])
+
+
+def check_scope_and_report(desc, before, after, returned, prefix="", known_out=None):
+    """Oracles (c) scope and (d) report for one glyph set.  Returns messages;
+    differences explained by a listed open finding go to ``known_out``."""
     out = []
     names = set(before)
     changed = {n for n in names & set(after) if geom(before[n]) != geom(after[n])}
@@ -387,6 +418,12 @@ def check_scope_and_report(desc, before, after, returned, prefix=""):
         allowed = reachable(before, inc)
         anychg = {n for n in names & set(after) if before[n] != after[n]}
         outside = (anychg | removed) - allowed
+        if desc["cls"] in PRUNING and known_out is not None:
+            pruned = (removed & _skip_list(desc)) - allowed
+            if pruned and findings.is_open("KF-C14-skipexport-prune-scope"):
+                known_out.append(("KF-C14-skipexport-prune-scope",
+                                  ["%sscope: pruned although outside the include scope: %s" % (prefix, sorted(pruned))]))
+                outside -= pruned
         if outside:
             out.append("%sscope: changed although neither included nor a component of an included glyph: %s"
                        % (prefix, sorted(outside)))
@@ -449,11 +486,14 @@ def execute(scn, scratch_root=None, classify=True):
                             if d:
                                 msgs.append("state: result differs from a fresh filter object: %s" % "; ".join(d))
                         if oc == "ok":
+                            kout = [] if classify else None
                             if st["op"] == "filter_call":
-                                msgs += check_scope_and_report(desc, before, after, ret)
+                                msgs += check_scope_and_report(desc, before, after, ret, known_out=kout)
                             else:
                                 for k, (b, a) in enumerate(zip(before, after)):
-                                    msgs += check_scope_and_report(desc, b, a, ret, "master%d " % k)
+                                    msgs += check_scope_and_report(desc, b, a, ret, "master%d " % k, known_out=kout)
+                            for fid, ps in kout or []:
+                                known.append({"step": i, "finding": fid, "paths": ps})
                     # (b) source untouched when a separate glyph set was passed
                     if not inplace_mode:
                         sd = target_w.source_diffs()
